@@ -3,6 +3,7 @@ import LentilVerif.Lemmas.PlaneAlg
 import LentilVerif.Lemmas.ChainExtents
 import LentilVerif.Props.C06
 import LentilVerif.Lemmas.PlaneComplex
+import LentilVerif.Lemmas.PlaneLoop
 /-! # C07 — wavefront views agree with each other and planes act as pointwise phasors
 
 Property theorems only. `Gen.mulPixelscale??` and `Gen.sliceOffset` are regenerated from lentil/plane.py and
@@ -649,5 +650,115 @@ theorem intensity_is_complex_normSq (S0 S1 : Int) (data : List (Fld ℂ)) (hpos 
   rw [hget i j hi hj, field_eq_sum S0 S1 data i j hi hj]
 
 end views
+
+/-! ## The loop body of `Plane.multiply`, regenerated from the source (wave 12) -/
+section loop
+variable {K R : Type}
+
+/-- **the per-segment phasor of the model is the loop body of `Plane.multiply` as the source has it** (about the
+*generated* `Gen.planeLoopAmp`, `Gen.planeLoopOpd`, `Gen.planeLoopData`, `Gen.planeLoopOffset`, read off plane.py:457-463 on
+every run): at every sample `(i, j)` of the slice `s`, the data of `segPhasor` is `amp * np.exp(..)` with
+`amp = self.amplitude * mask[s] if self.amplitude.size == 1 else self.amplitude[s] * mask[s]` and
+`opd = self.opd if self.opd.size == 1 else self.opd[s]`, the 0/1 mask entry being `1`/`0` of `K`, and its offset is
+`slice_offset(s, self.shape)`. Hypotheses: an *array* attribute does not have exactly one element (NumPy would then
+broadcast it; the harness ASSUMPTION "attribute arrays have the shape of the mask" with the one-element exclusion). A
+source change that drops `* mask[s]` from either branch, slices the wrong attribute, swaps the branches, changes the
+`size == 1` tests or the arguments of `slice_offset` changes the generated definitions and breaks this proof. -/
+theorem loop_body_is_segPhasor [MulZeroOneClass K] (ph : R → K) (amp : Attr K) (opd : Attr R) (s0 s1 : Int) (g : Seg)
+    (ha : ∀ x, amp = .array x → x.s0 * x.s1 ≠ 1) (ho : ∀ x, opd = .array x → x.s0 * x.s1 ≠ 1) (i j : Int) :
+    (segPhasor ph amp opd s0 s1 g).arr.get i j
+      = Gen.planeLoopData
+          (Gen.planeLoopAmp amp.npSize amp.whole (amp.at (i + g.s.r0) (j + g.s.c0)) (if g.m (i + g.s.r0) (j + g.s.c0) then 1 else 0))
+          (ph (Gen.planeLoopOpd opd.npSize opd.whole (opd.at (i + g.s.r0) (j + g.s.c0))))
+    ∧ ((segPhasor ph amp opd s0 s1 g).o0, (segPhasor ph amp opd s0 s1 g).o1)
+        = Gen.planeLoopOffset g.s.r0 g.s.r1 g.s.c0 g.s.c1 s0 s1
+    ∧ ((segPhasor ph amp opd s0 s1 g).arr.s0, (segPhasor ph amp opd s0 s1 g).arr.s1) = (g.s.r1 - g.s.r0, g.s.c1 - g.s.c0) := by
+  refine ⟨?_, rfl, rfl⟩
+  have hA : Gen.planeLoopAmp amp.npSize amp.whole (amp.at (i + g.s.r0) (j + g.s.c0)) (if g.m (i + g.s.r0) (j + g.s.c0) then (1 : K) else 0)
+      = maskMul (g.m (i + g.s.r0) (j + g.s.c0)) (amp.at (i + g.s.r0) (j + g.s.c0)) := by
+    unfold Gen.planeLoopAmp maskMul
+    cases amp with
+    | scalar v => cases g.m (i + g.s.r0) (j + g.s.c0) <;> simp [Attr.npSize, Attr.whole, Attr.at]
+    | array x =>
+      have := ha x rfl
+      cases g.m (i + g.s.r0) (j + g.s.c0) <;> simp [Attr.npSize, Attr.at, this]
+  have hO : Gen.planeLoopOpd opd.npSize opd.whole (opd.at (i + g.s.r0) (j + g.s.c0)) = opd.at (i + g.s.r0) (j + g.s.c0) := by
+    unfold Gen.planeLoopOpd
+    cases opd with
+    | scalar v => simp [Attr.npSize, Attr.whole, Attr.at]
+    | array x =>
+      have := ho x rfl
+      simp [Attr.npSize, this]
+  rw [hA, hO]
+  rfl
+
+/-- the hypotheses of `loop_body_is_segPhasor` hold for a 2×3 amplitude array and a scalar OPD, and the generated body
+evaluates: outside the mask the phasor is 0 whatever the amplitude, inside it is `amplitude[s] * exp-factor` -/
+example : (∀ x, (Attr.array (⟨2, 3, fun i j => i + j + 5⟩ : Arr Int)) = .array x → x.s0 * x.s1 ≠ 1)
+    ∧ Gen.planeLoopData (Gen.planeLoopAmp (6 : Int) (5 : Int) 7 0) 3 = 0
+    ∧ Gen.planeLoopData (Gen.planeLoopAmp (6 : Int) (5 : Int) 7 1) 3 = 21
+    ∧ Gen.planeLoopData (Gen.planeLoopAmp (1 : Int) (5 : Int) 7 1) 3 = 15
+    ∧ Gen.planeLoopData (Gen.planeLoopAmp (1 : Int) (5 : Int) 7 0) 3 = 0 := by
+  refine ⟨?_, by decide, by decide, by decide, by decide⟩
+  intro x hx
+  cases hx
+  decide
+
+/-- **which mask the loop reads, and which products it keeps** (generated `Gen.planeLoopMaskLayer` from
+`mask = self.mask if self.mask.ndim < 3 else self.mask[n]`, `Gen.planeLoopKeep` from `if res.size > 0:`): layer `n` exactly for
+masks of three or more dimensions — the model's `MaskM.segs` gives each segment its own layer and a 2-D mask one segment
+with the whole mask — and a product is appended exactly when it has at least one element (the model's `filterMap`
+drops the empty ones and nothing else) -/
+theorem loop_mask_and_keep (ndim n : Int) :
+    (Gen.planeLoopMaskLayer ndim = true ↔ 3 ≤ ndim) ∧ (Gen.planeLoopKeep n = true ↔ 0 < n) := by
+  unfold Gen.planeLoopMaskLayer Gen.planeLoopKeep
+  refine ⟨?_, by simp⟩
+  by_cases h : ndim < 3
+  · simp only [h, decide_true, if_true]
+    constructor
+    · intro hh; cases hh
+    · intro hh; omega
+  · simp only [h, decide_false]
+    constructor
+    · intro _; omega
+    · intro _; rfl
+
+/-- **the model's description of a mask is what `Plane.shape`, `Plane.size`, `_plane_slice` and the loop's mask selection
+make of it** (about the *generated* `Gen.planeShape`, `Gen.planeSize`, `Gen.planeSliceKind`, `Gen.planeLoopMaskLayer`, read off
+plane.py:186-214, 528-562, 456 on every run). A plane `.segs s0 s1 l` of the model stands for a 3-D mask of shape
+`(l.length, s0, s1)` with **any** number of layers — including a single layer — and, when `l` has one segment, also for the
+2-D mask of shape `(s0, s1)`; `.scalar` for a 0-d mask. In each reading: `plane.shape` is the model's `PlaneM.shape`,
+`plane.size` (the stride of `tilt[n::size]`) is the number of model segments, `_slice` has one `boundary_slice` per layer
+(resp. one for the whole mask, resp. `Ellipsis`), and the loop reads `mask[n]` (resp. the whole mask). A source change that
+makes a one-layer 3-D mask report a 3-tuple shape (the defect repaired in the repository: `if self.size == 1` in
+`Plane.shape`) or take the whole 3-D array as the layer breaks this proof. -/
+theorem plane_geometry_matches_model [Zero K] (p : PlaneM K R) :
+    match p.mask with
+    | .segs s0 s1 l =>
+        (Gen.planeShape [(l.length : Int), s0, s1] = [s0, s1] ∧ p.shape = some (s0, s1)
+          ∧ (1 ≤ l.length → Gen.planeSize [(l.length : Int), s0, s1] = l.length)
+          ∧ Gen.planeSliceKind [(l.length : Int), s0, s1] = .ok .perLayer
+          ∧ Gen.planeLoopMaskLayer (([(l.length : Int), s0, s1] : List Int).length) = true)
+        ∧ (Gen.planeShape [s0, s1] = [s0, s1] ∧ Gen.planeSize [s0, s1] = 1
+          ∧ Gen.planeSliceKind [s0, s1] = .ok .whole ∧ Gen.planeLoopMaskLayer (([s0, s1] : List Int).length) = false)
+    | .scalar _ =>
+        Gen.planeShape [] = [] ∧ p.shape = none ∧ Gen.planeSize [] = 1 ∧ Gen.planeSliceKind [] = .ok .ellipsis := by
+  cases hm : p.mask with
+  | scalar on =>
+    refine ⟨by decide, ?_, by decide, by decide⟩
+    simp only [PlaneM.shape, hm]
+  | segs s0 s1 l =>
+    refine ⟨⟨?_, ?_, ?_, ?_, ?_⟩, ?_, ?_, ?_, ?_⟩
+    · simp [Gen.planeShape]
+    · simp only [PlaneM.shape, hm]
+    · intro _; simp [Gen.planeSize]
+    · simp [Gen.planeSliceKind]
+    · simp [Gen.planeLoopMaskLayer]
+    · simp [Gen.planeShape]
+    · simp [Gen.planeSize]
+    · simp [Gen.planeSliceKind]
+    · simp [Gen.planeLoopMaskLayer]
+
+end loop
 
 end Lentil.C07
